@@ -8,6 +8,8 @@ ROOT = os.path.dirname(os.path.dirname(os.path.abspath(__file__)))
 import ast
 import glob
 
+# the lead's allowlist: a check is claimed only after review, seeds sweep and a mutant demonstration
+READY = set(open(os.path.join(ROOT, "tools", "ready.txt")).read().split())
 R = {}
 for path in sorted(glob.glob(os.path.join(ROOT, "props", "c[0-9]*.py"))):
     tree = ast.parse(open(path).read())
@@ -18,7 +20,7 @@ for path in sorted(glob.glob(os.path.join(ROOT, "props", "c[0-9]*.py"))):
             for k in ("level", "technique", "text", "note", "design_ref"):
                 assert k in meta, (path, k)
             meta.setdefault("engine", "vmc")
-            if meta.get("register", True):
+            if meta.get("register", True) and pid in READY:
                 R[pid] = meta
 
 props = [json.loads(l) for l in open(os.path.join(ROOT, "properties.jsonl")) if l.strip()]
